@@ -415,6 +415,7 @@ func cmdCheck(argv []string) int {
 			}
 			cfg.MaxInstrs = cfgInt(c, "max_instrs", cfg.MaxInstrs)
 			cfg.MaxPaths = cfgInt(c, "max_paths", cfg.MaxPaths)
+			cfg.MaxGoroutines = int(cfgInt(c, "max_goroutines", int64(cfg.MaxGoroutines)))
 			cfg.MaxPreempt = int(cfgInt(c, "preempt", 0))
 			cfg.SymSched = cfgBool(c, "sym_sched")
 			cfg.Delays = int(cfgInt(c, "delays", 0))
